@@ -21,9 +21,11 @@ Lemma flushed_shape s st :
 Proof.
   destruct st; cbn [run_stmt]; try (cbn; discriminate).
   - destruct (st_create_table s name _) as [s1 [u|e|]]; cbn; try discriminate. auto.
-  - destruct (insert_rows s table cols rows [] 0) as [[s1 b] o]. cbn. discriminate.
+  - destruct (first_err _ rows) as [u|e|]; try (cbn; discriminate).
+    destruct (insert_rows s table cols rows [] 0) as [[s1 b] o]. cbn. discriminate.
   - destruct (existsb _ sets); [cbn; discriminate|].
     destruct (where_ids s table where_) as [ids|e|]; try (cbn; discriminate).
+    destruct (first_err _ ids) as [u|e|]; try (cbn; discriminate).
     destruct (update_rows s table _ _ ids []) as [[s1 b] o]. cbn. discriminate.
   - destruct (where_ids s table where_) as [ids|e|]; try (cbn; discriminate).
     destruct (delete_rows s table ids [] 0) as [[s1 b] o]. cbn. discriminate.
